@@ -5,7 +5,7 @@
    All statements quantify over ALL byte strings (str = list Z), without length bounds. *)
 From Coq Require Import List ZArith.
 From Verif.Base Require Import Bytes.
-From Verif.Semver Require Import Model Spec Proofs ProofsCompare.
+From Verif.Semver Require Import Model Spec Proofs ProofsCompare ProofsGrammar ProofsPrec.
 
 (* ---- 1. Compare is a total preorder ------------------------------------------------------ *)
 
@@ -77,4 +77,66 @@ Print Assumptions C04_compare_zero_iff_canonical.
 Example C04_canonical_example :
   canonical (B "v1.2") = B "v1.2.0" /\ canonical (B "v1.2.0+meta") = B "v1.2.0" /\
   compare (B "v1.2") (B "v1.2.0+meta") = 0 /\ compare (B "v1.2.0-0") (B "v1.2") = -1.
+Proof. repeat split; vm_compute; reflexivity. Qed.
+
+(* ---- 3. Validity is the documented grammar; accessors return the parts --------------------- *)
+
+(* Version (Spec.v): three numerals, a form tag Full | ShortMinor | ShortMajor (short forms
+   have minor/patch "0" and neither prerelease nor build), prerelease identifiers (non-empty
+   over [0-9A-Za-z-], all-digit ones without leading zero), build identifiers. *)
+Theorem C04_is_valid_iff_grammar :
+  forall s, is_valid s = true <-> exists v : Version, render v = s.
+Proof. exact is_valid_iff_grammar. Qed.
+Print Assumptions C04_is_valid_iff_grammar.
+
+Theorem C04_render_inj : forall v w : Version, render v = render w -> v = w.
+Proof. exact render_inj. Qed.
+Print Assumptions C04_render_inj.
+
+Theorem C04_accessors_render :
+  forall v : Version,
+    major (render v) = render_major v /    major_minor (render v) = render_major_minor v /    prerelease (render v) = render_pre (v_pre v) /    build (render v) = render_build (v_build v) /    canonical (render v) = render_canonical v.
+Proof. exact accessors_render. Qed.
+Print Assumptions C04_accessors_render.
+
+Theorem C04_accessors_invalid :
+  forall s, is_valid s = false ->
+    major s = [] /\ major_minor s = [] /\ prerelease s = [] /\ build s = [] /\ canonical s = []
+    /\ canonical_version s = [].
+Proof. exact accessors_invalid. Qed.
+Print Assumptions C04_accessors_invalid.
+
+Theorem C04_canonical_version_spec :
+  forall v,
+    (build v = B "+incompatible" -> canonical_version v = canonical v ++ B "+incompatible") /    (build v <> B "+incompatible" -> canonical_version v = canonical v).
+Proof. exact canonical_version_spec. Qed.
+Print Assumptions C04_canonical_version_spec.
+
+Theorem C04_canonical_version_render :
+  forall v : Version,
+    canonical_version (render v) =
+    render_canonical v ++ (if str_eqb (render_build (v_build v)) (B "+incompatible")
+                           then B "+incompatible" else []).
+Proof. exact canonical_version_render. Qed.
+Print Assumptions C04_canonical_version_render.
+
+(* non-vacuity: versions exist, in all three forms *)
+Definition C04_v1 : Version :=
+  mkVersion (mkV (B "1") (B "2") (B "3") Full [B "rc"; B "1"] [B "meta"; B "007"]) eq_refl.
+Definition C04_v2 : Version := mkVersion (mkV (B "1") (B "2") (B "0") ShortMinor [] []) eq_refl.
+Definition C04_v3 : Version := mkVersion (mkV (B "1") (B "0") (B "0") ShortMajor [] []) eq_refl.
+Example C04_version_examples :
+  render C04_v1 = B "v1.2.3-rc.1+meta.007" /\ render C04_v2 = B "v1.2" /\ render C04_v3 = B "v1" /  render_canonical C04_v2 = B "v1.2.0" /\ render_major_minor C04_v3 = B "v1.0".
+Proof. repeat split; vm_compute; reflexivity. Qed.
+
+(* ---- 4. Compare is SemVer 2.0.0 section 11 precedence ---------------------------------------- *)
+
+Theorem C04_compare_spec :
+  forall v w : Version, compare (render v) (render w) = Z_of_comparison (prec v w).
+Proof. exact compare_spec. Qed.
+Print Assumptions C04_compare_spec.
+
+Example C04_prec_example :
+  prec C04_v3 C04_v2 = Lt /\ prec C04_v1 C04_v2 = Gt /  prec (mkV (B "1") (B "0") (B "0") Full [B "alpha"; B "1"] [])
+       (mkV (B "1") (B "0") (B "0") Full [B "alpha"; B "beta"] []) = Lt.
 Proof. repeat split; vm_compute; reflexivity. Qed.
